@@ -241,6 +241,21 @@ CHECKS = {
                   "in the per-run correspondence files, its results are kernel-checked.",
         technique="Rocq proofs over R (atan2 from atan, polar lemma, periodicity) + interval-certified correspondence samples + geometric oracle on the code",
         ref="§C10"),
+    "C19": dict(
+        text="PARTIAL. Proved for gscrib's own logic: C19_filter (sample_path's filter starts at the first sample, ends at the last, "
+             "in-order selection), C19_drop_rule (a sample is dropped exactly when its height differs from the previously kept one by "
+             "less than the tolerance), C19_sparse_line (linspace samples: exact ends, on the segment at i/n, own height), "
+             "C19_raster_line (Bresenham model of skimage.draw.line: max(|dr|,|dc|)+1 pixels, exact ends, one major-axis step per "
+             "pixel, within half a pixel of the ideal line), C19_raster_outside / _pixel_centre (range test, (y,x) order, scale; "
+             "pixel-centre exactness under the hypothesis that the spline reproduces the grid), C19_sparse_range / _vertex "
+             "(barycentric interpolation on a given triangulation: [min,max] inside, 0 outside, stored height at a vertex). Tie: "
+             "draw_line == skimage.draw.line and py_round == round exactly, raster_depth / sparse_depth (scipy's simplices) / linspace "
+             "within 1e-9, filter_points == sample_path output exactly; oracle on real maps for every clause of the statement.",
+        note=TB + "Partial: scipy RectBivariateSpline and Delaunay/LinearNDInterpolator are hypotheses/inputs of the theorems "
+                  "(checked on the code by the oracle at every pixel centre / data point / hull query), float32 height storage "
+                  "(1e-6 relative at pixel centres); from_path (OpenCV / loadtxt) not exercised. No axioms.",
+        technique="Rocq proofs (induction on sample lists, Bresenham loop invariant over Z, lra/nia) + correspondence (vm_compute) + oracle on the code",
+        ref="§C19"),
 }
 
 PENDING_REASON = "check not built yet in this session (work in progress; see DESIGN.md §10 for the order)"
